@@ -238,7 +238,7 @@ pub proof fn lemma_wf_unf(b: Seq<u8>, st: Unescaper, acc: Seq<u8>)
             lemma_wf_unf(b.take(it.index@ as int), Unescaper::Value(0), Seq::<u8>::empty());
             assert(b.take(it.index@ as int).push(b[it.index@ as int]) =~= b.take(it.index@ as int + 1));
         }
-//@ insert before "if output.is_some() {"
+//@ insert loop-after 1
     proof {
         assert(b.take(b.len() as int) =~= b);
         if output is Some && valid_utf8(output->0@) { axiom_utf8_decode_encode(output->0@); }
